@@ -50,6 +50,13 @@ CONCRETE = {
         QC((1, 40002), (2, 443), "0703070707070707", "", "")],
     # session resumption: the second and third connection reuse the first one's master secret (abbreviated handshakes, fresh randoms)
     "tls session resumed twice": [dict(T((1, 40000), (2, 443)), resumable=True), T((1, 40001), (2, 443), resume_of=0), T((1, 40002), (2, 443), resume_of=0)],
+    # one TLS connection captured on both sides of an address translator (tcpdump -i any on a NAT / container host): the same bytes, hence the same
+    # client random and the same key-log lines, on two 4-tuples -- a key-log line does not belong to exactly one connection of the capture
+    "tls seen on both sides of a NAT (same client random twice)": [T((1, 40000), (2, 443)), dict(T((9, 50123), (2, 443)), twin_of=0), T((1, 40001), (2, 443))],
+    # two TLS 1.3 connections whose key-log lines differ in completeness: all four traffic secrets for the first, application secrets only for the second
+    # (and the reverse): what is derived for one connection must not survive into the derivation for the next
+    "two tls 1.3, one with application secrets only": [dict(T((1, 40000), (2, 443)), kind13=0), dict(T((1, 40001), (2, 443)), kind13=1, hs_in_log=False),
+                                                       dict(T((3, 40000), (2, 443)), kind13=2), dict(T((3, 40002), (2, 443)), kind13=0, hs_in_log="c")],
     # beyond the model's sets: more connections, mixed IP versions
     "mixed: 2 tls (v4/v6 same host numbers) + 2 quic": [T((1, 40000), (2, 443)), T((1, 40000), (2, 443), ipv=6),
                                                         QC((1, 40000), (2, 443), "0a01070707070707", "aa01", "bb01", ipv=6), QC((1, 40002), (2, 443), "0a02070707070707", "aa02", "bb02")],
@@ -88,8 +95,14 @@ def build_one(cd, idx, seed):
     ipv = cd["ipv"]
     fl = Flow(ep(*cd["c"], ipv, False), ep(*cd["s"], ipv, True))
     if cd["proto"] == "tls":
+        if cd.get("twin_of") is not None:       # the same connection again (same seed => same randoms, keys, records), on another 4-tuple
+            seed, idx = seed - idx + cd["twin_of"], cd["twin_of"]
         ver, suite = TLS_KINDS[(idx + seed) % len(TLS_KINDS)]
         shape = {}
+        if cd.get("kind13") is not None:
+            ver, suite = R.TLS13, [0x1301, 0x1302, 0x1303][(cd["kind13"] + seed) % 3]
+            if cd.get("hs_in_log") is not None:
+                shape["hs_in_log"] = cd["hs_in_log"]
         if cd.get("resume_of") is not None or cd.get("resumable"):
             base_seed = seed - idx + (cd["resume_of"] if cd.get("resume_of") is not None else idx)
             ver, suite = [(R.TLS12, 0xC02F), (R.TLS12, 0x003C), (R.TLS10, 0x002F), (R.TLS12, 0xCCA8)][base_seed % 4]
